@@ -206,11 +206,11 @@ def monitor(case):
 
 def strip(case):
     keys = ('op', 'c', 'n', 'a', 'd', 'ids')
-    return {'lps': case['lps'], 'buddy': case.get('buddy', False), 'gpus': case['gpus'], 'hostile': case.get('hostile', False),
+    return {'lps': case['lps'], 'buddy': case.get('buddy', False), 'gpus': case['gpus'], 'hostile': case.get('hostile', False), 'large': case.get('large', False),
             'ops': [{k: o[k] for k in keys if k in o} for o in case['ops']]}
 
 
-def run_impl(binary, cases=None, seed=1, n=100, buddy_every=0):
+def run_impl(binary, cases=None, seed=1, n=100, buddy_every=0, large_every=0):
     tmp = os.path.join(vlib.BUILD, 'c10_%d.json' % os.getpid())
     if cases is not None:
         inp = tmp + '.in'
@@ -218,7 +218,7 @@ def run_impl(binary, cases=None, seed=1, n=100, buddy_every=0):
         rc, log = vlib.run([binary, '--replay', inp, '--out', tmp])
         os.remove(inp)
     else:
-        rc, log = vlib.run([binary, '--seed', str(seed), '--n', str(n), '--buddy-every', str(buddy_every), '--out', tmp])
+        rc, log = vlib.run([binary, '--seed', str(seed), '--n', str(n), '--buddy-every', str(buddy_every), '--large-every', str(large_every), '--out', tmp])
     if rc != 0:
         return None, log
     out = json.load(open(tmp))
@@ -296,7 +296,7 @@ def main(argv):
             cases, log = run_impl(binary, cases=[strip(c) for c in corpus])
             cases = cases or []
             ncorpus = len(cases)
-        gen, log = run_impl(binary, seed=vlib.seed(), n=n, buddy_every=6)
+        gen, log = run_impl(binary, seed=vlib.seed(), n=n, buddy_every=6, large_every=8)
         if gen is None:
             rep.obligation('harness run', False)
             rep.violation({'broken': 'harness run failed', 'log': log[-4000:]}, nofail=True)
@@ -312,7 +312,7 @@ def main(argv):
     # ---- correspondence with the model
     lst = [c for c in cases if not c.get('buddy')]
     bud = [c for c in cases if c.get('buddy')]
-    okc, mism, clog = vlib.eval_cases(PROP, HEADER, [c['coq'] for c in lst], shard_size=32)
+    okc, mism, clog = vlib.eval_cases(PROP, HEADER, [c['coq'] for c in lst], shard_size=10)
     rep.obligation('correspondence (list allocator): %d histories evaluated by the model' % len(lst), okc and not mism)
     okb, mismb, clogb = True, [], ''
     if bud and os.path.exists(os.path.join(vlib.COQ, 'drv', 'Buddy.v')):
@@ -325,7 +325,7 @@ def main(argv):
         'evaluations': len(cases),
         'distinct_nontrivial': len({vlib.case_hash(strip(c)) for c in cases if nontrivial(c)}),
         'rule': 'random API histories (20-80 calls; 1-3 processes incl. shared-PID contexts; CPU + 1-4 GPUs of 16-64 pages, one in four of 2-8 pages; '
-                'page sizes 2^12..2^16 and 2^21; request sizes around multiples of the page size and of 4 KiB (exact, +-1, half a page); unified devices; every 5th history hostile: double free, foreign/mid-buffer free, over-capacity, unmapped remap, bad device); '
+                'page sizes 2^12..2^16 and 2^21; request sizes around multiples of the page size and of 4 KiB (exact, +-1, half a page); every 8th history is a short history around large buffers (2 MiB - 1 page, 2 MiB, 2 MiB + 1, 4 MiB + delta, 64 MiB at page sizes >= 2^16) mixed with small allocations of two contexts, frees, re-allocations, remaps, distribution; unified devices; every 5th history hostile: double free, foreign/mid-buffer free, over-capacity, unmapped remap, bad device); '
                 'non-trivial = at least three allocations, a free, and a non-empty final page table',
         'traces_validated_against_impl': len(lst) + (len(bud) if bud and okb else 0),
         'corpus_cases': ncorpus,
@@ -334,6 +334,8 @@ def main(argv):
         'allocs_4k_multiple_not_page_multiple': sum(1 for c in cases for o in c['ops'] if o['op'] in ('alloc', 'allocu') and o.get('n', 0) % 4096 == 0 and o.get('n', 0) % (1 << c['lps']) != 0),
         'page_size_histogram': dict(collections.Counter(str(c['lps']) for c in cases)),
         'processes_histogram': dict(collections.Counter(str(len({o['ret'][0] for o in c['ops'] if o['op'] in ('init', 'initpid') and o['ret']})) for c in cases)),
+        'large_buffer_cases': sum(1 for c in cases if c.get('large')),
+        'large_allocations': sum(1 for c in cases for o in c['ops'] if o['op'] in ('alloc', 'allocu') and o.get('n', 0) >= (1 << 21) - (1 << c['lps'])),
         'hostile_cases': sum(1 for c in cases if c.get('hostile')),
         'buddy_cases': len(bud),
         'crashes_observed': sum(1 for c in cases for o in c['ops'] if o.get('crash')),
